@@ -131,7 +131,7 @@ def relations(ctx, ncases):
                                  observed=core.canon({k: R.to_labelled(v)[2] for k, v in oc.items()}),
                                  expected=core.canon({k: R.to_labelled(v)[2] for k, v in o1.items()}), tags=dict(tags, c=c), theorem="ratio_invariant")
                     continue
-                if e.name == "rmse":
+                if e.name in ("rmse", "rmse_angular"):
                     if not out_close(oc, o1, scale=c, square=True):
                         ctx.fail("weight-relations", "property", e.name, "not-homogeneous", desc, observed="rmse(c w)^2", expected="c rmse(w)^2",
                                  tags=dict(tags, c=c), theorem="nanmean_smul_weights")
